@@ -97,6 +97,7 @@ func runC18(p *Prog, r *Report) {
 	// to the packet filler on every path (C05.R3 always-applied clause re-evaluated; a parsed value that
 	// is then dropped for some inputs is not "returned" to the user)
 	checkFlagFieldsReadOnly(p, r, "C18.R4", func(fr FlagReg) bool { return true })
+	checkParsingSequential(p, r, "C18.R4")
 	sub := NewReport("C18", r.Tier)
 	checkCLIChain(p, sub)
 	for _, o := range sub.Obs {
